@@ -88,7 +88,9 @@ Definition emit (a : action) : M unit := fun s => ([a], s, Ok tt).
 Definition fail {A} (e : err) : M A := fun s => ([], s, Fail e).
 Definition internal_ {A} (k : internal) : M A := fun s => ([], s, Internal k).
 Definition fuel_ {A} : M A := fun s => ([], s, Fuel).
-Definition get : M st := fun s => ([], s, Ok s).
+(** read access to the constraint store and list (the remaining input is deliberately not exposed: the
+    decoder learns about its input only through [read1]) *)
+Definition get : M st := fun s => ([], s, Ok (mkSt [] (store s) (lst s))).
 Definition put (s' : st) : M unit := fun _ => ([], s', Ok tt).
 
 Definition read1 : M Z := fun s =>
